@@ -30,7 +30,7 @@ loader.exec_module(chk)
 
 # C18 only: performance rewrites of parser functions introduce panic-capable sites (string slices by byte index, new index
 # helpers, loops driven by helper results) that neither the bounds prover nor a reviewed entry discharges (DESIGN 7)
-KNOWN_LIMIT = {("ref-R43", "C18"), ("ref-R45", "C18"), ("ref-R46", "C18"), ("ref-R55", "C18"), ("ref-R56", "C18"), ("ref-R58", "C18")}
+KNOWN_LIMIT = {("ref-R43", "C18"), ("ref-R45", "C18"), ("ref-R46", "C18"), ("ref-R55", "C18"), ("ref-R56", "C18")}
 
 
 def trees():
